@@ -508,6 +508,7 @@ type boundedRes struct {
 
 var boundedTests = map[string][]string{
 	"C03": {"TestKvcBoundedRowBatch"},
+	"C04": {"TestKvcBoundedRewrite"},
 	"C05": {"TestKvcBoundedAliasExpansion", "TestKvcBoundedAliasNames", "TestKvcBoundedRowBatch"},
 	"C09": {"TestKvcBoundedAggregates"},
 }
@@ -548,7 +549,7 @@ func runBounded(prop string) []boundedRes {
 		res = append(res, boundedRes{name: tn, ok: ok, out: o, ev: map[string]any{
 			"check":  tn + " (/verif/bounded, injected with go test -overlay)",
 			"kind":   "bounded differential test on the real package: NOT a proof",
-			"bound":  "stores of at most 40 pairs, batch sizes {1,2,3,5,7,32}, the statement list of the test",
+			"bound":  "stores of at most 40 pairs, batch sizes {1,2,3,5,7,32}, the statement / expression lists of the test (C04: every arithmetic tree of four shapes over five leaves, 78 400 expressions x 5 pairs)",
 			"result": map[bool]string{true: "pass", false: "FAIL"}[ok],
 		}})
 	}
